@@ -153,7 +153,7 @@ def xml2json():
                         str(xml_path), str(json_path), len(errors)
                     ))
 
-    sys.exit(tot_errors)
+    sys.exit(min(tot_errors, 255))  # exit statuses wrap modulo 256
 
 
 def json2xml():
@@ -228,7 +228,7 @@ def json2xml():
         with open(str(xml_path), 'w') as fp:
             fp.write(etree_tostring(root))
 
-    sys.exit(tot_errors)
+    sys.exit(min(tot_errors, 255))  # exit statuses wrap modulo 256
 
 
 def validate():
@@ -275,4 +275,4 @@ def validate():
                     for error in errors:
                         sys.stderr.write(f"{error}\n")
 
-    sys.exit(tot_errors)
+    sys.exit(min(tot_errors, 255))  # exit statuses wrap modulo 256
